@@ -186,6 +186,23 @@ func runC15(p *Prog, l *Ledger) {
 				})
 			}
 		}
+		// who may write the counter: OnSample itself (where the path rule below sees every write) and constructors
+		if counter != nil {
+			for _, fn := range p.Funcs {
+				if fn == on {
+					continue
+				}
+				for _, a := range p.Accesses(fn) {
+					if !a.Write || a.Pointee || !sameField(a.Field, *counter) {
+						continue
+					}
+					if _, fresh := AccessPath(a.Base).Root.(*ssa.Alloc); fresh {
+						continue
+					}
+					bad4 = append(bad4, fmt.Sprintf("%s: the probe counter %s is written in %s, outside OnSample's own bookkeeping: the period can be restarted without the baseline being refreshed", p.At(a.Instr), counter.Name, p.Key(fn)))
+				}
+			}
+		}
 		npaths, nprobe := 0, 0
 		EnumPaths(on, 200000, func(pa *Path) bool {
 			if !pa.IsReturn() {
